@@ -89,6 +89,34 @@ func equalVals(v0, v1 any) (eq bool) {
 	return
 }
 
+// compareNums returns -1, 0, or 1 for a less than, equal to, or greater than
+// b. Two integers are compared as integers, any other pair of numbers as
+// floats.
+func compareNums(a, b any) (c int, ok bool) {
+	if ia, aok := asInt(a); aok {
+		if ib, bok := asInt(b); bok {
+			switch {
+			case ia < ib:
+				return -1, true
+			case ib < ia:
+				return 1, true
+			}
+			return 0, true
+		}
+	}
+	fa, aok := asFloat(a)
+	fb, bok := asFloat(b)
+	switch {
+	case !aok || !bok:
+		return 0, false
+	case fa < fb:
+		c = -1
+	case fb < fa:
+		c = 1
+	}
+	return c, true
+}
+
 func asInt(v any) (i int64, ok bool) {
 	ok = true
 	switch tv := v.(type) {
